@@ -263,3 +263,146 @@ func jshape(n *jnode) string {
 	}
 	return "?"
 }
+
+// ---- targeted edits of a JSON document of the fs model ----
+// jpath: slash-separated object keys / array indices ("index/fields/A/index/0/1").
+
+// jlocate returns the parent container and the position of the addressed node
+// in a deep copy of root.
+func jlocate(root *jnode, jpath string) (croot, parent *jnode, pos int) {
+	croot = jclone(root)
+	cur := croot
+	parts := strings.Split(jpath, "/")
+	for k, p := range parts {
+		pos = -1
+		switch cur.kind {
+		case jArr:
+			var n int
+			if _, err := fmt.Sscanf(p, "%d", &n); err == nil && n >= 0 && n < len(cur.arr) {
+				pos = n
+			}
+		case jObj:
+			for q, key := range cur.keys {
+				if key == p {
+					pos = q
+				}
+			}
+		}
+		if pos < 0 {
+			return nil, nil, -1
+		}
+		if k == len(parts)-1 {
+			return croot, cur, pos
+		}
+		if cur.kind == jArr {
+			cur = cur.arr[pos]
+		} else {
+			cur = cur.vals[pos]
+		}
+	}
+	return nil, nil, -1
+}
+
+func jslot(parent *jnode, pos int) **jnode {
+	if parent.kind == jArr {
+		return &parent.arr[pos]
+	}
+	return &parent.vals[pos]
+}
+
+func init() {
+	edit := func(i *interpreter, p string, f func(tree *jnode) *jnode) value {
+		n := i.env.fsm().nodes[p]
+		if n == nil || n.dir || n.data == nil {
+			return false
+		}
+		tree, err := i.blobTree(n.data)
+		if err != nil {
+			return false
+		}
+		m := f(tree)
+		if m == nil {
+			return false
+		}
+		n.data = &jsonBlob{node: m}
+		return true
+	}
+	// vJSONSet(path, jpath, text): replace the addressed node by the JSON value text
+	reg(hp+"vJSONSet", func(i *interpreter, fr *frame, args []value) value {
+		return edit(i, pathArg(args[0]), func(tree *jnode) *jnode {
+			nv, err := parseRaw([]byte(strArg(args[2])))
+			if err != nil {
+				return nil
+			}
+			croot, parent, pos := jlocate(tree, strArg(args[1]))
+			if parent == nil {
+				return nil
+			}
+			*jslot(parent, pos) = nv
+			return croot
+		})
+	})
+	// vJSONDel(path, jpath): remove the addressed array element / object member
+	reg(hp+"vJSONDel", func(i *interpreter, fr *frame, args []value) value {
+		return edit(i, pathArg(args[0]), func(tree *jnode) *jnode {
+			croot, parent, pos := jlocate(tree, strArg(args[1]))
+			if parent == nil {
+				return nil
+			}
+			if parent.kind == jArr {
+				parent.arr = append(parent.arr[:pos:pos], parent.arr[pos+1:]...)
+			} else {
+				parent.keys = append(parent.keys[:pos:pos], parent.keys[pos+1:]...)
+				parent.vals = append(parent.vals[:pos:pos], parent.vals[pos+1:]...)
+			}
+			return croot
+		})
+	})
+	// vJSONSwap(path, jpathA, jpathB): exchange two nodes (values stay symbolic)
+	reg(hp+"vJSONSwap", func(i *interpreter, fr *frame, args []value) value {
+		return edit(i, pathArg(args[0]), func(tree *jnode) *jnode {
+			croot, pa, ia := jlocate(tree, strArg(args[1]))
+			if pa == nil {
+				return nil
+			}
+			// locate b inside the same copy
+			cur := croot
+			parts := strings.Split(strArg(args[2]), "/")
+			var pb *jnode
+			ib := -1
+			for k, p := range parts {
+				pos := -1
+				if cur.kind == jArr {
+					var n int
+					if _, err := fmt.Sscanf(p, "%d", &n); err == nil && n >= 0 && n < len(cur.arr) {
+						pos = n
+					}
+				} else if cur.kind == jObj {
+					for q, key := range cur.keys {
+						if key == p {
+							pos = q
+						}
+					}
+				}
+				if pos < 0 {
+					return nil
+				}
+				if k == len(parts)-1 {
+					pb, ib = cur, pos
+					break
+				}
+				if cur.kind == jArr {
+					cur = cur.arr[pos]
+				} else {
+					cur = cur.vals[pos]
+				}
+			}
+			if pb == nil {
+				return nil
+			}
+			sa, sb := jslot(pa, ia), jslot(pb, ib)
+			*sa, *sb = *sb, *sa
+			return croot
+		})
+	})
+}
